@@ -530,6 +530,44 @@ def violation(rec, variant, via, a, clause, detail, **more):
 
 
 # --------------------------------------------------------------------------------------
+# what funsor's own interpretation returns (only consulted to ATTRIBUTE a mismatch)
+
+def interpretation(f, data):
+    """the data of f(**data) evaluated eagerly, or None when that is not a ground value"""
+    from funsor.interpretations import eager
+    from funsor.interpreter import reinterpret
+    from funsor.tensor import Tensor
+    from funsor.terms import Number
+
+    def extract(r):
+        if isinstance(r, Tuple):
+            return tuple(extract(x) for x in r.args)
+        if isinstance(r, (Number, Tensor)) and not r.inputs:
+            return r.data
+        raise ValueError("not ground")
+    try:
+        with np.errstate(all="ignore"), eager:
+            r = reinterpret(f)
+            if data:
+                r = r(**{n: v.copy() for n, v in data.items()})
+        return extract(r)
+    except Exception:
+        return None
+
+
+def same_actual(a, b):
+    if isinstance(a, tuple) or isinstance(b, tuple):
+        return (isinstance(a, tuple) and isinstance(b, tuple) and len(a) == len(b)
+                and all(same_actual(x, y) for x, y in zip(a, b)))
+    try:
+        a = np.asarray(a, dtype=np.float64)
+        b = np.asarray(b, dtype=np.float64)
+    except (TypeError, ValueError):
+        return False
+    return a.shape == b.shape and bool(np.allclose(a, b, rtol=vals.RTOL, atol=vals.ATOL, equal_nan=True))
+
+
+# --------------------------------------------------------------------------------------
 # phase C: run the real programs on every binding of the table TLC computed
 
 def _must_raise(call):
@@ -578,8 +616,16 @@ def phase_c(rec, tables):
                                           "error": "%s: %s" % (type(e).__name__, e)})
                     break
                 if not agrees(got, tab[k]):
+                    # C18 compares programs with interpretation: when funsor's own eager
+                    # evaluation of the expression returns what the program returns, the
+                    # difference from the specification's table belongs to the ops (C01/C15)
+                    ref = interpretation(f, data)
+                    if ref is not None and same_actual(got, ref):
+                        res["notes"]["program_equals_interpretation_but_not_spec:%s" % term_sig(a, 1)] += 1
+                        continue
                     bad = ("result", {"binding": {n: show(v) for n, v in data.items()},
-                                      "want": tab[k], "got": show(got)})
+                                      "want": tab[k], "got": show(got),
+                                      "interpretation": show(ref) if ref is not None else None})
                     break
             res["runs"] += 1
             if bad is not None:
